@@ -37,7 +37,8 @@ Inductive wrec :=
 | WEmptyDB (db : string)
 | WUnknownDirective (f : path) (u : udir)
 | WMissingInclude (e : event) (spelling : string)
-| WMissingForced (f : path) (n : path).
+| WMissingForced (f : path) (n : path)
+| WArgError (e : string).
 
 (* DirectiveNode.spelling *)
 Definition spelling_of (toks : list (bool * string)) : string :=
@@ -69,6 +70,7 @@ Definition msg_of (w : wrec) : string :=
       rpath (ev_file e) ++ ":" ++ dec (ev_tag e) ++ ": " ++ kind_label (ev_angle e) ++ " '" ++ rname (ev_name e)
       ++ "' not found" ++ nl ++ pad5 (dec (ev_tag e)) ++ " | " ++ sp
   | WMissingForced f n => rpath f ++ ": forced include '" ++ rname n ++ "' not found"
+  | WArgError e => "Could not parse all arguments: " ++ e
   end.
 
 (* ---------- FileParser.insert_directive_node ---------- *)
@@ -77,6 +79,8 @@ Variable unhandled : list string.
 Variable base_options : list (string * bool).
 Variable compilers : list (string * option string * list string * list (string * bool) * nat).
 Variable source_extensions : list string.
+Variable optional_value : list string.           (* flags registered with nargs="?" *)
+Variable flag_groups : list (list string).       (* option strings registered together *)
 
 Definition warns_unknown (u : udir) : bool :=
   match u_toks u with
@@ -132,46 +136,78 @@ Fixpoint resolve (fuel : nat) (name : string) : list string * list (string * boo
   | Some (Some a, _, _, _) => match fuel with 0 => ([], [], 0) | S n => resolve n a end
   end.
 
-Inductive tclass := TPositional | TKnown0 | TKnown1 | TAttached | TUnknown | TError (e : string).
+Inductive tclass := TPositional | TKnown0 | TKnown1 (f : string) | TAttached | TUnknown
+                   | TAmbiguous (e : string) | TIgnored (e : string).
 Definition starts_dash (t : string) : bool :=
   match t with String c (String _ _) => Ascii.eqb c "-"%char | _ => false end.
 Definition double_dash (t : string) : bool := String.prefix "--" t.
-(* ArgumentParser._parse_optional / _get_option_tuples for one token without '=':
-   an exact match wins; otherwise a single-dash token matches every registered two-character
-   flag it starts with (attached argument) AND every registered flag it is a prefix of
-   (abbreviation - allow_abbrev=False does not stop this for single-dash flags);
-   one match is used, several are an error, none leaves the token unrecognised *)
+(* the registered flags a single-dash token may stand for (_get_option_tuples), in registration
+   order: a two-character flag the token starts with (attached value), or a flag the token is a
+   prefix of (abbreviation - allow_abbrev=False does not stop this for single-dash flags) *)
+Definition tok_matches (opts : list (string * bool)) (t : string) : list (string * bool) :=
+  filter (fun o => (Nat.eqb (String.length (fst o)) 2 && String.prefix (fst o) t) || String.prefix t (fst o)) opts.
+(* a value may be glued to the flag: it takes one argument, or an optional one (nargs="?") *)
+Definition glue_ok (o : string * bool) : bool := snd o || mem_str (fst o) optional_value.
+(* the name argparse prints for an option: the option strings registered together, joined by '/' *)
+Definition display (f : string) : string :=
+  match find (fun g => mem_str f g) flag_groups with Some g => join "/" g | None => f end.
+Definition expected_one (f : string) : string := "argument " ++ display f ++ ": expected one argument".
+Definition drop2 (s : string) : string := match s with String _ (String _ r) => r | _ => "" end.
+(* ArgumentParser._parse_optional for one token without '=': an exact match wins; otherwise one
+   match is used, several are an error, none leaves the token unrecognised *)
 Definition classify_tok (opts : list (string * bool)) (t : string) : tclass :=
   if negb (starts_dash t) then TPositional
   else match find (fun o => String.eqb (fst o) t) opts with
-       | Some (_, true) => TKnown1
-       | Some (_, false) => TKnown0
+       | Some (f, true) => TKnown1 f
+       | Some (_, false) => TKnown0            (* no argument, or an optional one *)
        | None =>
            if double_dash t then TUnknown
            else
-             let short := filter (fun o => Nat.eqb (String.length (fst o)) 2 && String.prefix (fst o) t) opts in
-             let abbr := filter (fun o => String.prefix t (fst o)) opts in
-             match (short ++ abbr)%list with
+             match tok_matches opts t with
              | [] => TUnknown
              | [(f, takes)] =>
-                 if Nat.eqb (String.length f) 2 then (if takes then TAttached else TError "ArgumentError: ignored explicit argument")
-                 else (if takes then TKnown1 else TKnown0)
-             | _ => TError "ArgumentError: ambiguous option"
+                 if Nat.eqb (String.length f) 2 then
+                   (if glue_ok (f, takes) then TAttached
+                    else TIgnored ("argument " ++ display f ++ ": ignored explicit argument " ++ py_repr (drop2 t)))
+                 else (if takes then TKnown1 f else TKnown0)
+             | l => TAmbiguous ("ambiguous option: " ++ t ++ " could match " ++ join ", " (map fst l))
              end
        end.
-(* argparse.parse_known_args restricted to one-token flags, (flag, argument) pairs,
-   attached one-letter forms and positionals; returns the unrecognised tokens in order *)
-Fixpoint scan (opts : list (string * bool)) (pending : bool) (toks : list string) : res (list string) :=
+(* argparse.parse_known_args restricted to one-token flags, (flag, argument) pairs, attached
+   one-letter forms and positionals: the unrecognised tokens in order, or the ArgumentError
+   with the position of the token at which it is raised (what comes before has been applied) *)
+Inductive sres := SOk (l : list string) | SErr (msg : string) (pos : nat).
+Fixpoint scan (opts : list (string * bool)) (pending : option (string * nat)) (n : nat) (toks : list string) : sres :=
   match toks with
-  | [] => if pending then Err "ArgumentError: expected one argument" else Ok []
+  | [] => match pending with Some (f, j) => SErr (expected_one f) j | None => SOk [] end
   | t :: r =>
-      if pending then (if starts_dash t then Err "ArgumentError: expected one argument" else scan opts false r)
-      else match classify_tok opts t with
-           | TPositional | TKnown0 | TAttached => scan opts false r
-           | TKnown1 => scan opts true r
-           | TUnknown => match scan opts false r with Ok l => Ok (t :: l) | Err e => Err e end
-           | TError e => Err e
-           end
+      match pending with
+      | Some (f, j) => if starts_dash t then SErr (expected_one f) j else scan opts None (S n) r
+      | None =>
+          match classify_tok opts t with
+          | TPositional | TKnown0 | TAttached => scan opts None (S n) r
+          | TKnown1 f => scan opts (Some (f, n)) (S n) r
+          | TUnknown => match scan opts None (S n) r with SOk l => SOk (t :: l) | e => e end
+          | TAmbiguous e | TIgnored e => SErr e n
+          end
+      end
+  end.
+(* every token is classified before any option is applied: an ambiguous one fails the whole parse *)
+Fixpoint first_ambiguous (opts : list (string * bool)) (toks : list string) : option string :=
+  match toks with
+  | [] => None
+  | t :: r => match classify_tok opts t with TAmbiguous e => Some e | _ => first_ambiguous opts r end
+  end.
+Definition parse_argv (opts : list (string * bool)) (toks : list string) : sres :=
+  match first_ambiguous opts toks with
+  | Some e => SErr e 0
+  | None => scan opts None 0 toks
+  end.
+(* the options applied before the token at position pos *)
+Fixpoint applied (args : list carg) (offset pos : nat) : list carg :=
+  match args with
+  | [] => []
+  | a :: r => if Nat.ltb offset pos then a :: applied r (offset + List.length (render_arg a)) pos else []
   end.
 
 (* arguments[1:] of the command: the rendered options, then the file *)
@@ -179,7 +215,9 @@ Definition argv_tokens (e : dbentry) : list string :=
   (flat_map render_arg (db_args e) ++ [rpath (db_file e)])%list.
 Definition entry_of (e : dbentry) : entry :=
   {| e_file := db_file e;
-     e_dirs := flat_map (fun a => match a with CInc _ d => [d] | _ => [] end) (db_args e);
+     (* include_paths + system_include_paths: every -I value in command-line order, then every -isystem value *)
+     e_dirs := (flat_map (fun a => match a with CInc false d => [d] | _ => [] end) (db_args e)
+                ++ flat_map (fun a => match a with CInc true d => [d] | _ => [] end) (db_args e))%list;
      e_defs := flat_map (fun a => match a with CDef m v => [(m, v)] | _ => [] end) (db_args e);
      e_incs := flat_map (fun a => match a with CForce n => [n] | _ => [] end) (db_args e) |}.
 
@@ -194,9 +232,13 @@ Definition db_step (fs : fsys) (e : dbentry) : res (list wrec * list entry) :=
         let name := basename argv0 in
         let w1 := match find_compiler name compilers with None => [WUnknownCompiler name] | Some _ => [] end in
         let '(defaults, flags, extra) := resolve (List.length compilers) name in
-        match scan (base_options ++ flags)%list false (argv_tokens e ++ defaults)%list with
-        | Err x => Err x
-        | Ok unk =>
+        match parse_argv (base_options ++ flags)%list (argv_tokens e ++ defaults)%list with
+        | SErr msg pos =>
+            (* ArgumentError is caught: warned about, the options applied so far are kept,
+               unrecognised ones are not reported *)
+            let e' := {| db_file := db_file e; db_argv0 := db_argv0 e; db_args := applied (db_args e) 0 pos |} in
+            Ok ((w1 ++ [WArgError msg])%list, repeat (entry_of e') (S extra))
+        | SOk unk =>
             let w2 := match unk with [] => [] | _ => [WUnknownArgs unk] end in
             Ok ((w1 ++ w2)%list, repeat (entry_of e) (S extra))
         end
